@@ -1,6 +1,6 @@
 (* Extract.v -- extraction of the executable models (ExtrOcamlBasic only). *)
 From Coq Require Import List ZArith Bool.
-From SC Require Import Base Cfg Comb ModStr ModMem ModTok ModTs ModSearch Dispatch HandlerModel FmtScan.
+From SC Require Import Base Cfg Comb ModStr ModMem ModTok ModTs ModSearch ModConv Dispatch HandlerModel FmtScan.
 Require Extraction.
 Require Import ExtrOcamlBasic.
 Extraction Blacklist String List Nat.
